@@ -14,6 +14,10 @@
 //!                      read_once(Nonblock)
 //!        T | i         client: get_next_message(Duration(5 s)) | get_next_message(Infinite); only scheduled
 //!                      when a complete message is already queued
+//!        z | Z         get_next_message(Duration(0)) | get_next_message(Duration(1 ns)): the deadline has passed
+//!                      at the first look at the clock (time-out unless the buffer already holds a whole message)
+//!        R | j | q     read_once(Duration(5 s)) | read_once(Infinite) (only when a read can be made at once) |
+//!                      read_once(Duration(1 ns))
 //!   every `run` case has a deadline (C09_CASE_MS, default 3000 ms; a hang detector only: no operation of a
 //!   schedule waits for anything that is not already there): on expiry the result is HANG <results so far are
 //!   lost> and the next case runs on a fresh connection; after 3 such cases the rest of the input is SKIPPED
@@ -186,10 +190,22 @@ fn send_with_fds(peer: &UnixStream, bytes: &[u8], fds: &[RawFd]) -> Result<usize
 }
 
 fn run(stream: &[u8], nfds: &[usize], events: &str) -> String {
-    let (conn, peer) = rbverif::conn::connect_pair(true);
+    // a failing handshake is a problem of the set-up (property C17), not of the receive path
+    let (conn, peer) = match std::panic::catch_unwind(|| rbverif::conn::connect_pair(true)) {
+        Ok(x) => x,
+        Err(_) => return "SETUPFAIL connect_to_bus / auth handshake".to_string(),
+    };
     let mut recv = conn.recv;
     let _send = conn.send;
     peer.set_nonblocking(true).unwrap();
+    // room for a backlog of several MiB in the peer's send queue (root: SO_SNDBUFFORCE; else up to wmem_max)
+    {
+        use nix::sys::socket::{setsockopt, sockopt};
+        let want = stream.len().max(1 << 20) * 3;
+        if setsockopt(&peer, sockopt::SndBufForce, &want).is_err() {
+            let _ = setsockopt(&peer, sockopt::SndBuf, &want);
+        }
+    }
     // one pipe per descriptor; the read end travels, the write end is closed at once
     let mut table: Vec<Vec<RawFd>> = Vec::new();
     let mut idents: Vec<((u64, u64), String)> = Vec::new();
@@ -235,10 +251,13 @@ fn run(stream: &[u8], nfds: &[usize], events: &str) -> String {
                 }
                 pos += len;
             }
-            "g" | "t" | "T" | "i" => {
+            "g" | "t" | "T" | "i" | "z" | "Z" => {
                 let tmo = match ev {
                     "g" => Timeout::Nonblock,
                     "t" => Timeout::Duration(std::time::Duration::from_millis(1)),
+                    // a deadline that has passed when the call looks at the clock for the first time
+                    "z" => Timeout::Duration(std::time::Duration::from_nanos(0)),
+                    "Z" => Timeout::Duration(std::time::Duration::from_nanos(1)),
                     // only scheduled when a complete message is already queued: returns at once
                     "T" => Timeout::Duration(std::time::Duration::from_secs(5)),
                     _ => Timeout::Infinite,
@@ -267,7 +286,14 @@ fn run(stream: &[u8], nfds: &[usize], events: &str) -> String {
                     Err(e) => out.push(err_name(&e)),
                 }
             }
-            "r" => match recv.read_once(Timeout::Nonblock) {
+            "r" | "R" | "j" | "q" => match recv.read_once(match ev {
+                "r" => Timeout::Nonblock,
+                // R, j: only scheduled when a read can be made at once (bytes queued, or the buffer is complete)
+                "R" => Timeout::Duration(std::time::Duration::from_secs(5)),
+                "j" => Timeout::Infinite,
+                // the shortest receive timeout the socket accepts
+                _ => Timeout::Duration(std::time::Duration::from_nanos(1)),
+            }) {
                 Ok(()) => out.push("K".to_string()),
                 Err(e) => out.push(err_name(&e)),
             },
@@ -362,7 +388,7 @@ fn main() {
                     let r = std::panic::catch_unwind(|| run(&stream, &nfds, &events));
                     let _ = tx.send(r.unwrap_or_else(|_| "PANIC in the receive path".to_string()));
                 });
-                match rx.recv_timeout(std::time::Duration::from_millis(case_ms)) {
+                match rx.recv_timeout(std::time::Duration::from_millis(case_ms + (parts[1].len() / 2000) as u64)) {
                     Ok(r) => r,
                     Err(_) => {
                         hangs += 1;
